@@ -43,6 +43,9 @@ EStep ==
        ELSE IF Ev.kind = "write" /\ sc.family \in {"promise-id", "promise-data", "promise-maps", "promise-key", "promise-timeout"}
        THEN IF Ev.class # "2xx" THEN "a well-formed write was refused"
             ELSE IF ~ PromiseOK(Ev.got, sc.want, FALSE) THEN "a datum was not returned as supplied" ELSE ""
+       ELSE IF Ev.kind \in {"read", "write"} /\ sc.family = "lazy-timeout"
+       THEN IF Ev.class # "2xx" THEN (IF Ev.kind = "read" THEN "a stored promise cannot be read back" ELSE "a well-formed write was refused")
+            ELSE IF ~ PromiseOK(Ev.got, [sc.want EXCEPT !.timeout = Ev.got.timeout], FALSE) THEN "a datum was not returned as supplied" ELSE ""
        ELSE IF sc.family = "exact-ids" /\ Ev.name = "probe-b" THEN (IF Ev.class = "4xx" THEN "" ELSE "ids are not compared exactly")
        ELSE IF sc.family = "exact-ids" /\ Ev.name = "read-a"
        THEN (IF Ev.class = "2xx" /\ Ev.got.present /\ Ev.got.id = sc.want.a /\ Ev.got.data = "61" THEN "" ELSE "ids are not compared exactly")
